@@ -182,6 +182,42 @@ def run_chunk(srcs):
     return out
 
 
+def source_tables():
+    """The constant tables of _utils.py read from the source text with ast (no import): the prefix tuples of normalize_strings, the closing brackets and the comma of
+    skip_trailing_comma, the f-string prefixes of simple_token.__eq__.  Fail-closed: any other shape of these functions raises ValueError."""
+    import inline_snapshot._utils as u
+    tree = ast.parse(Path(u.__file__).read_text("utf-8"))
+    funcs = {n.name: n for n in ast.walk(tree) if isinstance(n, (ast.FunctionDef, ast.ClassDef))}
+
+    def str_tuple(node):
+        if not (isinstance(node, ast.Tuple) and node.elts and all(isinstance(e, ast.Constant) and isinstance(e.value, str) for e in node.elts)):
+            raise ValueError("not a tuple of string constants: " + ast.dump(node)[:200])
+        return [e.value for e in node.elts]
+
+    ns = funcs["normalize_strings"]
+    sw = [n for n in ast.walk(ns) if isinstance(n, ast.Call) and isinstance(n.func, ast.Attribute) and n.func.attr == "startswith"]
+    cond = [n for n in ast.walk(ns) if isinstance(n, ast.BoolOp) and isinstance(n.op, ast.And) and len(n.values) == 3]
+    if len(sw) != 2 or len(cond) != 1:
+        raise ValueError("normalize_strings: expected one condition `type == STRING and not startswith(triple) and startswith(simple)`")
+    c = cond[0].values
+    if not (isinstance(c[0], ast.Compare) and isinstance(c[1], ast.UnaryOp) and isinstance(c[1].op, ast.Not) and c[1].operand in sw and c[2] in sw and c[2] is not c[1].operand):
+        raise ValueError("normalize_strings: the condition has another shape")
+    q3, q1 = str_tuple(c[1].operand.args[0]), str_tuple(c[2].args[0])
+    st = funcs["skip_trailing_comma"]
+    cmp_ = [n for n in ast.walk(st) if isinstance(n, ast.Compare)]
+    ins = [n for n in cmp_ if isinstance(n.ops[0], ast.In)]
+    eqs = [n for n in cmp_ if isinstance(n.ops[0], ast.Eq) and isinstance(n.comparators[0], ast.Constant) and isinstance(n.comparators[0].value, str)]
+    if len(ins) != 1 or len(eqs) != 1:
+        raise ValueError("skip_trailing_comma: expected `token.string == \",\" and next_token.string in (...)`")
+    closers, comma = str_tuple(ins[0].comparators[0]), [eqs[0].comparators[0].value]
+    eq = [n for n in ast.walk(funcs["simple_token"]) if isinstance(n, ast.FunctionDef) and n.name == "__eq__"]
+    gens = [g for n in ast.walk(eq[0]) if isinstance(n, ast.GeneratorExp) for g in n.generators if isinstance(g.iter, ast.Tuple) and all(isinstance(e, ast.Constant) for e in g.iter.elts)] if eq else []
+    if len(gens) != 1:
+        raise ValueError("simple_token.__eq__: expected one `for suffix in (...)`")
+    fpre = str_tuple(gens[0].iter)
+    return {"q3": q3, "q1": q1, "closers": closers, "comma": comma, "fprefixes": fpre}
+
+
 def g_toks(ts):
     return g_list(ts, lambda t: g_pair(g_N(t[0]), g_str(t[1])))
 
@@ -224,7 +260,22 @@ def check_part(ctx, n, label):
         idx.append(i)
     nonp = nonprintable_ranges()
     pre = "Definition nonp : list (N * N) := [" + ";".join(f"({a},{b})" for a, b in nonp) + "]%N.\n"
-    bad = coq_eval_shards(ctx, "tokens", "Model.Tokens Corr.TokensCorr", "TokensCorr.case", terms, "TokensCorr.mismatches nonp", chunk=200, preamble=pre)
+    # the tables of the source, as they are now, against the tables the theorems speak about (evaluated in Coq; index 1000000 = the tables differ)
+    try:
+        tb = source_tables()
+        tabs = " ".join(g_list(tb[k], g_str) for k in ("q3", "q1", "closers", "comma", "fprefixes"))
+    except (ValueError, KeyError, IndexError) as e:
+        tb, tabs = None, "[] [] [] [] []"
+        ctx.report(f"the translator of the constant tables of _utils.py does not recognise the source any more ({e}): the theorems of Model/Tokens.v are not tied to this source",
+                   {"kind": "tokens-tables"}, no_input=True, kind="correspondence")
+    pre += f"Definition tabs_ok : bool := TokensCorr.tables_ok {tabs}.\nDefinition mm (l : list TokensCorr.case) : list nat := (if tabs_ok then [] else [1000000%nat]) ++ TokensCorr.mismatches nonp l.\n"
+    bad = coq_eval_shards(ctx, "tokens", "Model.Tokens Corr.TokensCorr", "TokensCorr.case", terms, "mm", chunk=200, preamble=pre)
+    if any(j >= 1000000 for j in bad):
+        bad = [j for j in bad if j < 1000000]
+        if tb is not None:
+            ctx.report(f"the constant tables of _utils.py (normalize_strings / skip_trailing_comma / simple_token.__eq__) are not the tables of Model/Tokens.v any more: {tb}",
+                       {"kind": "tokens-tables", "tables": tb}, no_input=True, kind="correspondence")
+    ctx.coverage["correspondence"]["utils_tables_from_source"] = tb
     ctx.coverage["traces_validated_against_impl"] += len(terms)
     ctx.coverage["correspondence"]["token_normalize"] = {"cases": len(terms), "mismatches": len(bad), "outside_lexer_model": nuns, "update_pending_leaf": nleaf, "update_pending_norm": nnorm}
     for j in bad[:5]:
